@@ -17,7 +17,24 @@ import (
 	"verifharness/hx"
 )
 
-func c09Frames(t *testing.T, rep *hx.Report, rng *hx.RNG, randomPerLen int) {
+func c09Frames(t *testing.T, rep *hx.Report, orc *hx.Oracle, rng *hx.RNG, randomPerLen int) {
+	var lines, impls []string
+	var frames [][]byte
+	defer func() {
+		// correspondence with the Lean model of stripEthernetHeader (TRV.Link.strip)
+		ans, err := orc.Batch(lines)
+		if err != nil {
+			t.Fatalf("oracle(link.strip): %v", err)
+		}
+		for i := range ans {
+			if ans[i] != impls[i] {
+				rep.Violate(hx.Violation{Kind: "correspondence", NoInput: true, What: "stripEthernetHeader and its model TRV.Link.strip differ; the link-layer spec holds on the implementation's output",
+					Sig: map[string]string{"stream": "frames"}, Replay: map[string]any{"frame": hx2(frames[i]), "real": impls[i], "model": ans[i],
+						"broken": "correspondence stream link/strip (Lean TRV.Link.strip vs packets.stripEthernetHeader)"}})
+				return
+			}
+		}
+	}()
 	ets := []uint16{0x0800, 0x86dd, 0x8100, 0x88a8, 0x9100, 0x0806, 0x8864, 0x0000, 0x0040, 0x05dc, 0x0600, 0xffff}
 	try := func(f []byte, what string) {
 		var up []byte
@@ -31,6 +48,16 @@ func c09Frames(t *testing.T, rep *hx.Report, rng *hx.RNG, randomPerLen int) {
 			}()
 			up, err = packets.VerifStripEthernetHeader(f)
 		}()
+		if panicked == "" {
+			tok := "skip"
+			switch {
+			case err != nil:
+				tok = "error"
+			case up != nil:
+				tok = "pkt " + hx2(up)
+			}
+			lines, impls, frames = append(lines, "link.strip "+hx2(f)), append(impls, tok), append(frames, f)
+		}
 		et := -1
 		if len(f) >= 14 {
 			et = int(binary.BigEndian.Uint16(f[12:]))
